@@ -66,7 +66,12 @@ def run_unit(unit: dict) -> dict:
                         else:
                             zq = root / "zoq" / "t.zoq"
                             zq.parent.mkdir(exist_ok=True)
-                            zq.write_text(f"# {q}\n# keep this header line\n")
+                            # first a broad query, then the page is re-pointed to {q} and refreshed again:
+                            # the second result is (usually) SHORTER than what the page held before
+                            zq.write_text("# S note G none O alpha\n# keep this header line\n")
+                            swog.refresh_zoq_file(root, db.db_url(root), zq)
+                            old_lines = zq.read_text().split("\n")
+                            zq.write_text("\n".join([f"# {q}"] + old_lines[1:]))
                             swog.refresh_zoq_file(root, db.db_url(root), zq)
                             text = zq.read_text()
                             if not text.endswith("\n"):
